@@ -199,4 +199,65 @@ theorem only_ethblock_moves_head (d : D) (o : Wire.Op) (hk : o.kind ≠ "tx.ethb
     · split <;> rfl
 
 
+/-! ### retrying after the fault clears gives the same result as a fault-free run -/
+
+theorem newEthBlock_keeps_snap (d d' : D) (o : Wire.Op) (h : newEthBlock d o = .ok d') : d'.snap = d.snap := by
+  unfold newEthBlock at h
+  dsimp only at h
+  split at h
+  · split at h <;> cases h
+  split at h
+  · cases h
+  · cases h
+  split at h
+  · cases h
+  · cases h
+  split at h
+  · cases h
+  · cases h
+  split at h
+  · cases h
+  split at h
+  · cases h
+  · cases h
+  split at h
+  · cases h
+  · cases h
+  cases h
+  rfl
+
+theorem runTx_keeps_snap (d : D) (o : Wire.Op) : (runTx d o).1.snap = d.snap := by
+  unfold runTx
+  split
+  · rfl
+  · rfl
+  · split
+    · split
+      · rename_i d' h; exact newEthBlock_keeps_snap d d' o h
+      · rfl
+      · rfl
+    · split <;> rfl
+
+/-- **Retry = fault-free run.**  Let a block be started on `d`, let `body` be whatever runs inside it
+    (any composition of steps that do not touch the saved pre-state, e.g. transactions: `runTx_keeps_snap`),
+    and let its end-of-block step not commit (engine error / INVALID at either call, or a failing hook).
+    Then starting the next attempt from the resulting state is *the same state* as starting it from `d`:
+    every later step — in particular the retried block once the fault has cleared — behaves exactly as if
+    the faulty attempt had never happened. -/
+theorem retry_equals_fault_free (d : D) (halt halt' : Bool) (body : D → D) (hsnap : ∀ x, (body x).snap = x.snap)
+    (time : Int) (ns fs : String)
+    (hnc : (endBlock (body (startBlock d halt)) time ns fs).2.1 = false) :
+    startBlock (endBlock (body (startBlock d halt)) time ns fs).1 halt' = startBlock d halt' := by
+  have hs : (body (startBlock d halt)).snap = some (d.w, d.goat) := by rw [hsnap]; rfl
+  obtain ⟨h1, h2, _⟩ := uncommitted_block_restores_prestate _ time ns fs d.w d.goat hs hnc
+  generalize (endBlock (body (startBlock d halt)) time ns fs).1 = r at h1 h2
+  unfold startBlock
+  rw [h1, h2]
+
+/-- a block body made of transactions keeps the saved pre-state -/
+theorem txs_keep_snap (ops : List Wire.Op) (d : D) : (ops.foldl (fun x o => (runTx x o).1) d).snap = d.snap := by
+  induction ops generalizing d with
+  | nil => rfl
+  | cons o os ih => rw [List.foldl_cons, ih, runTx_keeps_snap]
+
 end Goat.C09
